@@ -3,19 +3,43 @@
 
 run_impl executes the op line on the real crysp.serpent; the property oracle is the executable Lean Spec (second driver
 column) and, independently of both, the small reference below (plain-int bitslice Serpent written from the submission,
-sharing no code with crysp or with the Lean files)."""
+sharing no code with crysp or with the Lean files).
+
+Two Lean Specs: Spec.Serpent (bitslice formulation, the form of the code; Proofs.C02_Serpent ties the model to it) and
+Spec.SerpentStd (the standard, non-bitslice formulation: IP, key mixing with K^_i, 32 S-boxes on consecutive nibbles, bit-level
+linear transformation table, FP); Proofs.C02_SerpentStd proves the submission's equivalence claim between the two for every
+key and block and composes it with the model refinement (enc_refines_std / dec_refines_std)."""
 from props.common import *
 
 PREFIX = ('serpent.',)
 ID = 'C02'
-LEAN_PROOFS = ['Proofs.C02_Serpent']
+LEAN_PROOFS = ['Proofs.C02_Serpent', 'Proofs.C02_SerpentStd']
 GEN_ITEMS = ['Serpent']
 RULE = ('op lines = (operation, key, block); keys of every byte length 0..32 (zero / all-one / single-bit / random), bit-length '
         'keys around every word boundary, blocks zero / all-one / single-bit / random, over-long keys and wrong block sizes; '
         'component functions on unit vectors, uniform columns and random states; distinct lines; non-trivial = implementation returned a value')
-TRUSTED = ['Spec.Serpent is a hand rendering of the Serpent AES submission (bitslice formulation); S-boxes typed from the submission; '
-           'validated by the three NESSIE vectors of tests/test_serpent.py and by an independent Python reference on every generated case '
-           '(no other Serpent oracle exists offline)']
+TRUSTED = ['Spec.SerpentStd is a hand rendering of the STANDARD (non-bitslice) description of the Serpent AES submission: block as bits 0..127, '
+           'IP/FP as the literal appendix tables, rounds = key mixing with K^_i, 32 parallel copies of S_{i mod 8} on consecutive nibbles, linear '
+           'transformation as a bit-level parity table, last round with K^_32, FP; validated in the kernel on NESSIE vectors. The model of the code is '
+           'proved equal to it end to end (Proofs.C02_SerpentStd.enc_refines_std / dec_refines_std, every key <= 256 bits, every block), via the proved '
+           'equivalence standard = bitslice (enc_std_eq_bitslice / dec_std_eq_bitslice: round by round, each standard round = IP-conjugate of the bitslice '
+           'round). So the bitslice rendering Spec.Serpent (column S-box layer, word rotations/shifts, round chaining, IP/FP rule) is NO LONGER trusted '
+           'as far as enc/dec are concerned: it is an intermediate, and the correspondence oracle (driver spec column) is proved equal to the standard form',
+           'still trusted in Spec.SerpentStd / shared by both Specs: (a) the eight S-box tables typed from appendix A.5 (Spec.Serpent.sboxTable; the same '
+           'tables serve both formulations; inverse boxes are derived by rule); (b) the key schedule up to K_i (padding 1-then-zeros, prekey recurrence '
+           'with phi and <<<11, S-boxes S3,S2,S1,S0,S7,... in bitslice mode, K^_i = IP(K_i)) — the submission defines it in bitslice terms only, so '
+           'there is one rendering (Spec.Serpent.roundKeys) used by both; (c) the linear-transformation parity tables ltTable/ltInvTable: they have the '
+           'format of appendix A.3/A.4 but were generated mechanically from the word operations conjugated by IP/FP (the appendix is not available '
+           'offline), only their first rows were compared with the author\'s memory of the appendix; L_table_is_conjugate proves table = IP o (word '
+           'operations) o FP on all 2^128 inputs, so L is one rendering in two proved-equal forms, not two independent ones; (d) the byte/bit-order '
+           'convention (little-endian numbers, see ASSUMPTIONS)',
+           'both Specs are additionally checked against an independent plain-int Python reference on every generated case and against five NESSIE '
+           'vectors (no other Serpent oracle exists offline)']
+LEVEL_NOTE = ('Serpent: proved — model = bitslice Spec (C02_Serpent) and bitslice Spec = standard Spec of the submission (C02_SerpentStd: IP/FP tables = '
+              'rule = probed tables and mutually inverse; nibble k of IP(x) = column k; S-box layer, key mixing, linear transformation, round and inverse '
+              'round are IP-conjugates for every key/block; table-defined L and L^-1 are mutually inverse; enc/dec equal on all inputs), hence model = standard '
+              'description. Trusted — S-box tables, the (bitslice-defined) key schedule rendering, the mechanically generated L tables as a copy of appendix '
+              'A.3/A.4 (proved equal to the word-level definition), byte order, Lean kernel.')
 ASSUMPTIONS = ['python -O (asserts stripped) is out of scope',
                'byte order: a key/block byte string is the little-endian number of its bytes (NESSIE convention, the one crysp and its tests use)',
                'a zero-length key is padded like any other short key (1 then zeros); the submission only says "up to 256 bits"']
